@@ -1,5 +1,6 @@
 """locks, atomics, clocks, formatting, sorting and a few more std pieces."""
 import itertools
+import re
 import z3
 from .values import *
 from .models import (model, pattern, cont, some, none, ok, err, usize, deref, as_seq, as_map, is_variant, payload,
@@ -734,3 +735,12 @@ def m_ready_future_poll(c):
     if not (isinstance(fut, Struct) and fut.ty == "ReadyFuture"):
         raise Unsupported('poll of a future that is not a stubbed ready value')
     return Enum('Poll', 0, {('Ready', 0): fut.fields[0]}, variant='Ready')
+
+
+@model('std::mem::size_of', 'core::mem::size_of')
+def m_size_of(c):
+    m = re.search(r'size_of::<([^>]+)>', c.callee or '')
+    sizes = {'u8': 1, 'i8': 1, 'bool': 1, 'u16': 2, 'i16': 2, 'u32': 4, 'i32': 4, 'f32': 4, 'u64': 8, 'i64': 8, 'usize': 8, 'isize': 8, 'f64': 8, 'u128': 16, 'i128': 16}
+    if not m or m.group(1) not in sizes:
+        raise Unsupported('size_of of ' + (m.group(1) if m else '?'))
+    return Int(z3.BitVecVal(sizes[m.group(1)], 64), False)
